@@ -90,3 +90,92 @@ pub fn failpoint_count() -> u64 {
 pub fn failpoint_log() -> Vec<&'static str> {
     FP_LOG.with(|l| l.borrow().clone().unwrap_or_default())
 }
+
+// ---- lock recorder (acquire / release events of every SharedData lock) ---------------------------
+
+/// Phase of a lock operation reported to the recorder.
+#[derive(Clone, Copy, Debug, PartialEq, Eq)]
+pub enum LockPhase {
+    Before,
+    Acquired,
+    Released,
+}
+
+/// One event: which lock (address), read or write, by which thread, from which call site.
+#[derive(Clone, Debug)]
+pub struct LockEvent {
+    pub phase: LockPhase,
+    pub lock: usize,
+    pub write: bool,
+    pub thread: std::thread::ThreadId,
+    pub file: &'static str,
+    pub line: u32,
+}
+
+type LockHook = std::sync::Arc<dyn Fn(&LockEvent) + Send + Sync>;
+static LOCK_HOOK: std::sync::RwLock<Option<LockHook>> = std::sync::RwLock::new(None);
+
+/// Install (or remove) the callback that receives every lock event. The callback may block the
+/// calling thread (in `Before` events), which is how a harness owns the schedule.
+pub fn set_lock_hook(hook: Option<LockHook>) {
+    *LOCK_HOOK.write().unwrap_or_else(|e| e.into_inner()) = hook;
+}
+
+pub fn lock_event(phase: LockPhase, lock: usize, write: bool, loc: &'static std::panic::Location<'static>) {
+    let hook = LOCK_HOOK.read().unwrap_or_else(|e| e.into_inner()).clone();
+    if let Some(h) = hook {
+        h(&LockEvent { phase, lock, write, thread: std::thread::current().id(), file: loc.file(), line: loc.line() });
+    }
+}
+
+/// Read guard that reports its release.
+pub struct VerifReadGuard<'a, T> {
+    guard: std::sync::RwLockReadGuard<'a, T>,
+    id: usize,
+    loc: &'static std::panic::Location<'static>,
+}
+
+impl<'a, T> VerifReadGuard<'a, T> {
+    pub fn new(guard: std::sync::RwLockReadGuard<'a, T>, id: usize, loc: &'static std::panic::Location<'static>) -> Self {
+        Self { guard, id, loc }
+    }
+}
+
+impl<T> std::ops::Deref for VerifReadGuard<'_, T> {
+    type Target = T;
+    fn deref(&self) -> &T {
+        &self.guard
+    }
+}
+
+impl<T> Drop for VerifReadGuard<'_, T> {
+    fn drop(&mut self) {
+        lock_event(LockPhase::Released, self.id, false, self.loc);
+    }
+}
+
+/// Scope object used by the closure-taking accessors: reports Before on creation, Acquired when
+/// told, Released when dropped (after the closure has run and the real guard is gone or about to go).
+pub struct LockScope {
+    id: usize,
+    write: bool,
+    loc: &'static std::panic::Location<'static>,
+}
+
+impl LockScope {
+    #[track_caller]
+    pub fn enter(id: usize, write: bool) -> Self {
+        let loc = std::panic::Location::caller();
+        lock_event(LockPhase::Before, id, write, loc);
+        LockScope { id, write, loc }
+    }
+    pub fn acquired(&self) {
+        lock_event(LockPhase::Acquired, self.id, self.write, self.loc);
+    }
+}
+
+impl Drop for LockScope {
+    fn drop(&mut self) {
+        lock_event(LockPhase::Released, self.id, self.write, self.loc);
+    }
+}
